@@ -498,6 +498,7 @@ static inline int myth_create_ex_body(myth_thread_t * id,
 static inline void myth_exit_body(void *ret) {
   myth_running_env_t env;
   myth_thread_t th;
+  (void)myth_ensure_init(); /* may be the first use of the library */
   env = myth_get_current_env();
   th = env->this_thread;
   th->result = ret;
